@@ -3,6 +3,7 @@
 use vmon::{Args, Mon};
 
 mod c08;
+mod c09;
 mod c10;
 
 fn main() {
@@ -10,6 +11,7 @@ fn main() {
     let mut mon = Mon::new();
     let (rule, assumptions): (String, Vec<&'static str>) = match args.prop.as_str() {
         "C08" => c08::run(&args, &mut mon),
+        "C09" => c09::run(&args, &mut mon),
         "C10" => c10::run(&args, &mut mon),
         other => panic!("chk-snap does not implement {other}"),
     };
